@@ -42,7 +42,7 @@ func Scan(data string, loc SourceLoc, delims []string) (tokens []Token) {
 		}
 		source := data[ts:te]
 		switch {
-		case data[ts:ts+len(delims[0])] == delims[0]:
+		case strings.HasPrefix(source, delims[0]):
 			if source[len(delims[0])] == '-' {
 				tokens = append(tokens, Token{
 					Type: TrimLeftTokenType,
@@ -59,7 +59,7 @@ func Scan(data string, loc SourceLoc, delims []string) (tokens []Token) {
 					Type: TrimRightTokenType,
 				})
 			}
-		case data[ts:ts+len(delims[2])] == delims[2]:
+		case strings.HasPrefix(source, delims[2]):
 			if source[len(delims[2])] == '-' {
 				tokens = append(tokens, Token{
 					Type: TrimLeftTokenType,
